@@ -1161,12 +1161,11 @@ func c11DispatcherWaits(p *P, r *R) {
 		memo[f] = res
 		return res
 	}
-	// frozen exceptions: lock | function | first callee of the chain -> why the chain is infeasible
-	exceptions := map[string]string{
-		"SessionManager.RWMutex|(*SessionManager).checkHotRestart|(*streamPool).close": "the pool closes its session first; Stream.close returns before notifying the peer when the session is closed (C10 R10.3)",
-		"SessionManager.RWMutex|handleSessionManagerHotRestart|(*streamPool).close":    "the pool closes its session first; Stream.close returns before notifying the peer when the session is closed (C10 R10.3)",
-		"SessionManager.RWMutex|(*SessionManager).background$1|newClientSession":       "call-graph imprecision: conn.Close() in newSession is a net.Conn method, resolved also to streamWrapper.Close; the conn of a client session is a dialled socket",
-		"SessionManager.RWMutex|handleSessionManagerHotRestart|newClientSession":       "call-graph imprecision: conn.Close() in newSession is a net.Conn method, resolved also to streamWrapper.Close; the conn of a client session is a dialled socket",
+	// frozen exceptions: lock | link of the call chain -> why every chain through that link is infeasible
+	type dExc struct{ lock, link, why string }
+	exceptions := []dExc{
+		{"SessionManager.RWMutex", "(*streamPool).close -> (*Stream).Close", "the pool closes its session first; Stream.close returns before notifying the peer when the session is closed (C10 R10.3)"},
+		{"SessionManager.RWMutex", "newSession -> (*streamWrapper).Close", "call-graph imprecision: conn.Close() in newSession is a net.Conn method, resolved also to streamWrapper.Close; the conn of a client session is a dialled socket"},
 	}
 	var ws []string
 	for w := range dlocks {
@@ -1194,8 +1193,13 @@ func c11DispatcherWaits(p *P, r *R) {
 						continue
 					}
 					n++
-					key := w + "|" + p.fname(f) + "|" + p.fname(g)
-					reason, ok := exceptions[key]
+					full := p.fname(f) + " -> " + chain
+					reason, ok := "", false
+					for _, e := range exceptions {
+						if e.lock == w && strings.Contains(full, e.link) {
+							reason, ok = e.why, true
+						}
+					}
 					r.ob("R11.13", p.fname(f)+": while "+w+" (needed by the event loop) may be held, the call of "+p.fname(g)+" does not reach a wait for the event loop's write-ready signal", p.ipos(in), ok, true,
 						"chain: %s; %s", chain, reason)
 				}
